@@ -4,7 +4,9 @@ import HumphreyModel.Driver.C02
 import HumphreyModel.Driver.C03
 import HumphreyModel.Driver.C05
 import HumphreyModel.Driver.C07
+import HumphreyModel.Driver.C09
 import HumphreyModel.Driver.C18a
+import HumphreyModel.Driver.C18b
 import HumphreyModel.Driver.C17
 import HumphreyModel.Driver.C16
 import HumphreyModel.Driver.C10
@@ -24,7 +26,7 @@ One `dispatch` per property lives in `HumphreyModel/Driver/Cxx.lean`.
 open Humphrey Humphrey.Driver
 
 def dispatchers : List (String → List String → String → Option Verdict) :=
-  [ C01.dispatch, C02.dispatch, C03.dispatch, C05.dispatch, C07.dispatch, C18a.dispatch, C17.dispatch, C16.dispatch, C10.dispatch, C15.dispatch, C08.dispatch, C13.dispatch, C19.dispatch, C11.dispatch, C14.dispatch ]
+  [ C01.dispatch, C02.dispatch, C03.dispatch, C05.dispatch, C07.dispatch, C09.dispatch, C18a.dispatch, C18b.dispatch, C17.dispatch, C16.dispatch, C10.dispatch, C15.dispatch, C08.dispatch, C13.dispatch, C19.dispatch, C11.dispatch, C14.dispatch ]
 
 def dispatch (fn : String) (args : List String) (impl : String) : Verdict :=
   match dispatchers.findSome? (fun d => d fn args impl) with
